@@ -19,6 +19,10 @@ structure GenArgs where
   labels : List String
   /-- `depends_on` through `util.to_list` -/
   deps : List String
+  /-- `version_path` as `os.path.normpath(os.path.abspath(.))`, `none` when not given -/
+  versionPath : Option String := none
+  /-- `_version_locations`, each through `os.path.normpath` -/
+  locations : List String := []
   deriving Repr, Inhabited
 
 def hasDup : List (Option Id) → Bool
@@ -37,6 +41,14 @@ def generateRevision (m : LMap) (a : GenArgs) : Except Err Rev := do
   if a.revid.toList.any (· ∈ illegalChars) then throw .revisionError  -- `verify_rev_id` (CommandError from RevisionError)
   let heads ← getRevisionsMany m a.heads
   if hasDup heads then throw .commandError                           -- "Duplicate head revisions specified"
+  -- the version path: taken from the first head when several locations are configured and none
+  -- is given ("please specify --version-path" when there is no head); a given path has to BE one
+  -- of the configured locations (also with `recursive_version_locations`)
+  match a.versionPath with
+  | none =>
+    if a.locations.length > 1 ∧ heads.all (·.isNone) then throw .commandError
+  | some p =>
+    if p ∉ a.locations then throw .commandError                      -- "Path ... is not represented in current version locations"
   if !a.splice then
     if heads.any (fun h => match h with | some i => !(m.nextrev i).isEmpty | none => false) then
       throw .commandError                                            -- "is not a head revision"
